@@ -126,7 +126,7 @@ claim("C11", "DESIGN.md section 4 C11/C12/C16 + section 11",
       "copy.copy never write an existing address - remove_preserves_input); model tied to the code by per-step comparison of every live stream on exhaustive short and random long histories. "
       "For lambdas handed over as ast objects: Model/CopyTree.v models util_ast._copy_of_tree on node identities (keep-test attributes read from the source) - lambda_copy_isolates_the_callers_tree "
       "(no object of the caller's tree other than another stream's nodes is reachable from the copy the in-place passes work on), lambda_copy_objects_are_new_or_another_streams, "
-      "lambda_copy_is_the_same_query, lambda_copy_creates_each_object_once (the objects the copy creates are exactly the counter range, once each, in preorder: the copy shares no node with itself), the pre-F57 keep-test refuted; tied by random attributed trees whose result identities are evaluated inside Coq, and by the regraft oracle on the code.",
+      "lambda_copy_is_the_same_query, lambda_copy_creates_each_object_once (the objects the copy creates are exactly the counter range, once each, in preorder: the copy shares no node with itself), lambda_copy_keeps_every_other_streams_node (attached(copy) = attached(original), object for object), the pre-F57 keep-test refuted; tied by random attributed trees whose result identities are evaluated inside Coq, and by the regraft oracle on the code.",
       "Lambda processing (parse, sugar, type following) after that copy is an input of the stream model; copy.copy is modelled as a shallow copy including __dict__; asyncio/make_sync are not modelled.")
 claim("C12", "DESIGN.md section 4 C11/C12/C16 + section 11",
       "proof: no_exec_while_building; value_routes_once (exactly one log entry: the override if given, else the executor found along args[0]; AST = remove_empty of the stream's own dump; the title); "
